@@ -140,6 +140,11 @@ def c08_family(seed, thorough):
         [R('[0-9]{2}'), R('[0-9]+')],
         [R('(ab){3}', prio=12), R('[ab]{6}')],
         [R('x{2,4}'), R('x+', prio=3)],
+        # ignore(case) literals with metacharacters / high bytes: the default is 2 x the *literal's* byte length
+        [T('a+', ignore_case=True), R('[aA]\\+', prio=4)],
+        [T('a+', ignore_case=True), R('[aA]\\+', prio=6)],
+        [T(b'k\xFF', ignore_case=True), R(b'[kK]\xFF', prio=4)],
+        [T(b'k\xFF', ignore_case=True), R(b'[kK]\xFF', prio=10)],
     ]
     for i, c in enumerate(cases):
         mk(i, c, ('amb', 'quick') if (i < 14 or i >= 24) else ('amb',), utf8=not any(isinstance(p.lit, bytes) for p in c))
@@ -278,10 +283,12 @@ def c09_shapes():
         ('opt_group', R('a(bc)?d')), ('lazy', R('a+?b')),
         ('alt_zero_first', R('(?:_*|r#)[a-z]+')), ('alt_zero_mid', R('(?:xyz|[0-9]*|pq)[a-z]')), ('alt_zero_last', R('(?:r#|_*)[a-z]')),
         ('alt_opt_first', R('(x?|yz)w')), ('alt_look', R(r'x(?-u:\b|yz)w|qqq')), ('alt_empty', R('(|ab)cd')), ('alt_rep0', R('(ab){0,2}c|dd')),
+        # ignore(case) literals whose escaped form is longer than the literal (metacharacters, bytes >= 0x80)
+        ('ic_tok_meta', T('a+b', ignore_case=True)), ('ic_tok_meta2', T('x.[y]', ignore_case=True)),
     ]
     B = [
         ('b_tok', T(b'\xC3\xA9')), ('b_regex_utf8', R(b'\xC3\xA9')), ('b_regex_raw', R(b'\xFF\xFE')), ('b_class', R(b'[\x80-\xFF]a')),
-        ('b_tok_raw', T(b'\xFF\x00a')),
+        ('b_tok_raw', T(b'\xFF\x00a')), ('b_ic_tok_hi', T(b'\xC3\xA9k', ignore_case=True)), ('b_ic_tok_meta', T(b'a|\xFF', ignore_case=True)),
     ]
     return S, B
 
@@ -307,8 +314,8 @@ def c09(tier, seed):
     ev = report.Evidence('C09', tier, seed, 'other')
     shapes = c09_defs()
     if tier == 'quick':
-        keep = {'alt_zero_first', 'alt_zero_mid', 'alt_opt_first', 'alt_empty'}
-        shapes = shapes[:14] + [x for x in shapes[14:] if x[0] in keep] + shapes[-3:]
+        keep = {'alt_zero_first', 'alt_zero_mid', 'alt_opt_first', 'alt_empty', 'ic_tok_meta', 'ic_tok_meta2'}
+        shapes = shapes[:14] + [x for x in shapes[14:-4] if x[0] in keep] + shapes[-4:]
     # documented default priority from the independent implementation (refdfa facts) / 2 x byte length
     probes = []
     meta = {}
